@@ -5,6 +5,7 @@
 # (except the two known always-failing auditlog tests) -> demo fails with the patch and passes without ->
 # ./verif mutant <patch> <ID> -> meta.json. The worktree and its build output are removed afterwards.
 set -u
+SEED_GOFLAGS="${SEED_GOFLAGS:-}"
 ID="$1"; N="$2"; DEMODIR="$3"; RUNPAT="$4"; TIER="${5:-quick}"
 SRC="/tmp/seedwt/$ID/.seed/$N"
 [ -f "$SRC/patch.diff" ] || { echo "no $SRC/patch.diff"; exit 2; }
@@ -20,10 +21,10 @@ cp "$SRC/notes.md" "$OUT/notes.md" 2>/dev/null
 cd "$WT"
 # demo without the change
 cp "$demo" "$WT/$DEMODIR/zz_seed_demo_test.go"
-without=$(go test -count=1 -run "$RUNPAT" "./$DEMODIR/" 2>&1 | tail -1)
+without=$(go test $SEED_GOFLAGS -count=1 -run "$RUNPAT" "./$DEMODIR/" 2>&1 | tail -1)
 git apply "$SRC/patch.diff" || { echo "patch does not apply"; exit 2; }
 go build ./... || { echo "does not build"; exit 2; }
-with=$(go test -count=1 -run "$RUNPAT" "./$DEMODIR/" 2>&1 | tail -1)
+with=$(go test $SEED_GOFLAGS -count=1 -run "$RUNPAT" "./$DEMODIR/" 2>&1 | tail -1)
 rm -f "$WT/$DEMODIR/zz_seed_demo_test.go"
 suite=$(go test -count=1 -timeout 25m ./... 2>&1 | grep -E "^(FAIL|---)" | grep -v "TestConcurrentWriterFailsOnInit\|TestSerialWriterFailsOnInitForUnexistingFile\|internal/auditlog" )
 if [ -n "$suite" ]; then
